@@ -367,9 +367,11 @@ func addSubchart(parent *chart.Chart, sc *SubchartSpec) {
 	if sc.Schema != "" {
 		sub.Schema = []byte(sc.Schema)
 	}
-	parent.Metadata.Dependencies = append(parent.Metadata.Dependencies, &chart.Dependency{
-		Name: sc.Name, Version: "0.1.0", Repository: "", Alias: sc.Alias, Condition: sc.Condition,
-	})
+	if !sc.Undeclared {
+		parent.Metadata.Dependencies = append(parent.Metadata.Dependencies, &chart.Dependency{
+			Name: sc.Name, Version: "0.1.0", Repository: "", Alias: sc.Alias, Condition: sc.Condition,
+		})
+	}
 	parent.AddDependency(sub)
 	for i := range sc.Sub {
 		addSubchart(sub, &sc.Sub[i])
